@@ -227,6 +227,7 @@ static void print_result(void *ret, int rejected)
         fputc('\n', fr);
 }
 
+static long njump;
 static uint32_t pick_len(rng_t *r, uint32_t maxlen)
 {
         uint32_t B = (uint32_t) A->block, L = (A->wsize == 8) ? 16 : 8, v;
@@ -319,6 +320,25 @@ int main(int argc, char **argv)
                                                 if (v == 0) flags = 4 + rng_below(&R, 60);
                                                 else if (v == 1 && cx[c].st == ST_FRESH) flags = rng_below(&R, 2) ? ISAL_HASH_UPDATE : ISAL_HASH_LAST;
                                         }
+                                }
+                        }
+                        if (!do_flush && cx[c].st == ST_IDLE && rng_below(&R, 12) == 0) {
+                                /* C15: jump the running total of an idle context (a whole number of blocks, so the
+                                   partial-block position stays consistent) to just below 2^29 / 2^32 / 2^32+2^29 /
+                                   2^35 / 2^60 bytes, as if that much had been hashed.  No digest oracle exists for such
+                                   a stream; the Lean model (same jump) is the reference for hash_pad's length arithmetic */
+                                static const uint64_t marks[] = { 1ull << 29, 1ull << 32, (1ull << 32) + (1ull << 29), 1ull << 35, 1ull << 60 };
+                                hctx *h = &cx[c];
+                                uint64_t mark = marks[rng_below(&R, 5)], cur = FLD64(h->obj, A->off_total);
+                                uint64_t want = mark - 128 * (uint64_t) rng_below(&R, 3) - (rng_below(&R, 2) ? 0 : 128 * (uint64_t) rng_below(&R, 64));
+                                if (want > cur + 128) {
+                                        uint64_t delta = (want - cur) / 128 * 128;
+                                        fprintf(fo, "T %d %llu\n", c, (unsigned long long) delta);
+                                        FLD64(h->obj, A->off_total) += delta;
+                                        h->sum_len += delta;
+                                        h->too_big = 1;
+                                        fprintf(fr, "ok tot=%llu\n", (unsigned long long) FLD64(h->obj, A->off_total));
+                                        njump++;
                                 }
                         }
                         if (do_flush) {
